@@ -26,6 +26,9 @@ CHECKS = {
  "C14": dict(category="exploration", technique="Hypothesis-generated transcripts/features x chunk windows x export modes; the exported text is re-read by an independent 12-column BED reader and decoded back to blocks",
    text="BED12 format invariants (block count, first start 0, ascending non-overlapping blocks, last block reaches end, thick range inside) and exact decoding to the exported blocks, span, strand, name, score, RGB and CDS bounds in chromosome and chunk-relative coordinates.",
    note="Chunk windows contain the interval; thickStart=thickEnd=0 accepted for non-coding records (documented convention).", ref="DESIGN.md §5 C14"),
+ "C07": dict(category="exploration", technique="twin differential over Hypothesis-generated (object, chunk window) pairs plus an exhaustive single-exon CDS x chunk product; the whole-chromosome twin and the Pos/Seq/Frame models restricted to the window are the oracle",
+   text="Features, CDS, transcripts, genes, feature collections and annotation collections are built twice - on seq_to_parent(genome) and on seq_chunk_to_parent(genome[cs:ce]) - and compared: chromosome-level blocks, dictionary form, identifiers, codon triples must be identical; chunk-relative locations, sequences and codons must equal the chromosome answers restricted to the window; misses must be empty, never an error.",
+   note="Known findings: F6b (single-exon CDS offset arithmetic, pinned by repository tests), F22 (collection-level GUIDs digest the chunk-relative location).", ref="DESIGN.md §5 C07"),
  "C15": dict(category="exploration", technique="exhaustive enumeration of the finite domains against typed-in IUPAC tables and Biopython's NCBI codon tables",
    text="Every element of every finite domain (4096 IUPAC triplets x case, all alphabet letters, frames x shifts in [-30,30], all strand pairs/triples, all biotype names) is enumerated and compared with an independent reference; within those domains this is complete.",
    note="Trusts Biopython CodonTable ids 1/11 and Bio.Seq.complement; IUPAC tables typed into checks/c15.py.", ref="DESIGN.md §5 C15"),
